@@ -198,6 +198,9 @@ Definition is_nil (env : list frame) (ats : list attr) : bool :=
   | None => false
   end.
 
+Definition uri_is_one (v : option str) : bool :=
+  match v with Some [49%N] => true | _ => false end.
+
 (* AttrList.skip *)
 Definition is_skip_uri (u : str) : bool := existsb (str_eqb u) skip_uris.
 Definition skip_attr (env : list frame) (a : attr) : bool :=
@@ -349,6 +352,7 @@ Variable globals : list (qn * qn).     (* global elements: name -> type *)
    reference to a known quirk; the model of the code is the instance false/true *)
 Variable strict_qname : bool.          (* true: unprefixed QName -> default namespace (not the code) *)
 Variable do_promote : bool.            (* false: skip promotePrefixes (not the code) *)
+Variable nil_one : bool.               (* true: xsi:nil="1" also means nil (not the code) *)
 
 Definition nid (s : str) : N := match sfind s names with Some n => n | None => 0%N end.
 Definition uid (u : option str) : N :=
@@ -439,6 +443,11 @@ Definition translate (real : rtype) (s : str) : pyval :=
   | RC _ => PLeaf tag_str s
   end.
 
+(* Typed.nillable: content.type.nillable or (resolved.builtin() and resolved.nillable);
+   XBuiltin.nillable is True for every built-in the family uses *)
+Definition decl_nillable (d : edecl) : bool :=
+  e_nil d || match e_type d with TBuiltin => true | TNamed _ _ => false end.
+
 (* Core.append: start, append_attributes, append_children, append_text, end, postprocess.
    decl = the type the content was looked up as (None: not in the schema);
    cnil = content.type.nillable *)
@@ -464,7 +473,7 @@ Fixpoint decode (env : list frame) (decl : option rtype) (cnil : bool) (e : elem
                               (fun _ => DTypeNotFound)
                     | Some (FAny _) => DOther
                     | Some (FE dc _ _) =>
-                        dbind (decode env' (resolve_tref (e_name dc) (e_type dc)) (e_nil dc) k) (fun cval =>
+                        dbind (decode env' (resolve_tref (e_name dc) (e_type dc)) (decl_nillable dc) k) (fun cval =>
                         go r (store_child (reserved (e_nm k)) (e_multi dc) cval data))
                     end
                 end) ks data0)
@@ -477,7 +486,7 @@ Fixpoint decode (env : list frame) (decl : option rtype) (cnil : bool) (e : elem
                else match data with
                     | _ :: _ => DOk (PObj (Some (type_id real)) data)
                     | [] =>
-                        if is_nil env' ats then DOk PNone
+                        if is_nil env' ats || (nil_one && uri_is_one (find_xsi env' ats s_nil)) then DOk PNone
                         else if ht then DOk (translate real (match txt with Some t => t | None => [] end))
                         else if nokids then DOk (if cnil then PNone else PLeaf tag_str [])
                         else DOk PNone
@@ -510,7 +519,7 @@ Definition returned_types (wt : ctype) : list rentry :=
 (* unmarshaller.process(node, rt.resolve(nobuiltin=True)) *)
 Definition process_top (env : list frame) (d : edecl) (n : elem) : dres pyval :=
   let r := resolve_tref (e_name d) (e_type d) in
-  decode env r (match r with Some (RB _) => e_nil d | _ => false end) n.
+  decode env r (match r with Some (RB _) => true | _ => false end) n.
 
 Fixpoint rfind_entry (n : N) (l : list rentry) (acc : option rentry) : option rentry :=
   match l with
